@@ -81,6 +81,81 @@ def system_lengths():
     return [hypercubic_setting.system_length] * setting.dimension
 
 
+def install_per_handler_rng(base_seed):
+    """Give every event handler its own random stream (C20: 'with the same per-event-handler random streams'): class-level,
+    signature-preserving wrappers around send_event_time / send_out_state swap the handler's private `random` state in and out.
+    Must be installed BEFORE the mediator is built (the multi-process mediator forks in its constructor). The stream of handler
+    number i (position in activator.get_event_handlers()) is seeded with base_seed*7919 + i on first use."""
+    import pkgutil, importlib, functools
+    import jellyfysh.event_handler as eh
+    from jellyfysh.event_handler.event_handler import EventHandler
+    for m in pkgutil.walk_packages(eh.__path__, eh.__name__ + "."):
+        importlib.import_module(m.name)
+
+    def subclasses(c):
+        out = []
+        for sc in c.__subclasses__():
+            out.append(sc)
+            out += subclasses(sc)
+        return out
+
+    def wrap(f):
+        @functools.wraps(f)
+        def w(self, *a, **k):
+            d = self.__dict__
+            if d.get("_verif_in"):
+                return f(self, *a, **k)
+            st = d.get("_verif_rng")
+            if st is None:
+                st = random.Random(base_seed * 7919 + d["_verif_idx"]).getstate()
+            outer = random.getstate()
+            random.setstate(st)
+            d["_verif_in"] = True
+            try:
+                return f(self, *a, **k)
+            finally:
+                d["_verif_in"] = False
+                d["_verif_rng"] = random.getstate()
+                random.setstate(outer)
+        w._verif_wrapped = True
+        return w
+    for cls in set(subclasses(EventHandler)):
+        for name in ("send_event_time", "send_out_state"):
+            f = cls.__dict__.get(name)
+            if f is None or getattr(f, "_verif_wrapped", False) or getattr(f, "__isabstractmethod__", False):
+                continue
+            setattr(cls, name, wrap(f))
+    # the multi-process mediator forks inside its constructor: number the handlers just before it starts its processes
+    from jellyfysh.mediator.multi_process_mediator import multi_process_mediator as mpm
+    orig_start = mpm.MultiProcessMediator._start_processes
+
+    def start_processes(self):
+        for i, h in enumerate(self._event_handlers_list):
+            h.__dict__["_verif_idx"] = i
+        return orig_start(self)
+    mpm.MultiProcessMediator._start_processes = start_processes
+
+
+class ScheduleShim:
+    """stands in for `multiprocessing.connection` inside multi_process_mediator: `wait` blocks until every in-flight pipe is
+    readable and then returns a seeded non-empty ordered sub-list of them — OS scheduling becomes a replayable adversary"""
+    def __init__(self, seed):
+        self.rng = random.Random(seed)
+        self.mediator = None
+        self.log = []
+
+    def wait(self, pipes, timeout=None):
+        from jellyfysh.mediator.multi_process_mediator.multi_process_mediator import EventHandlerState as S
+        st = self.mediator._event_handlers_state
+        inflight = [p for p in pipes if st[p] in (S.event_time_started, S.out_state_started)]
+        for p in inflight:
+            p.poll(None)
+        k = self.rng.randint(1, len(inflight))
+        order = self.rng.sample(inflight, k)
+        self.log.append([(self.mediator._verif_hid[id(self.mediator._event_handlers[p])], st[p].name) for p in order])
+        return order
+
+
 def build(job, tmpdir):
     import jellyfysh
     from jellyfysh.base import factory
@@ -99,6 +174,14 @@ def build(job, tmpdir):
                 config.set(sec, k, str(v))
     # file names in the .ini are relative to the jellyfysh package directory of the (private) scratch tree
     os.chdir(os.path.join(root, "jellyfysh"))
+    if job.get("mp"):
+        # same configuration under the multi-process mediator
+        sec = dict(config.items("SingleProcessMediator"))
+        config.set("Run", "mediator", "multi_process_mediator")
+        config.add_section("MultiProcessMediator")
+        for k, v in sec.items():
+            config.set("MultiProcessMediator", k, v)
+        config.set("MultiProcessMediator", "number_cores", str(job["mp"]["cores"]))
     standin = False
     if any("pdb_input_handler" in v for sec in config.sections() for _, v in config.items(sec)):
         standin = install_pdb_standin()
@@ -113,14 +196,36 @@ def record(job):
     seed = job.get("seed", 0)
     tmpdir = tempfile.mkdtemp(prefix="jfrun_")
     random.seed(seed)
+    shim = None
+    if job.get("per_handler_rng"):
+        install_per_handler_rng(seed)
+    if job.get("mp"):
+        from jellyfysh.mediator.multi_process_mediator import multi_process_mediator as mpm
+        shim = ScheduleShim(job["mp"].get("schedule_seed", 0))
+        mpm.connection = shim
     mediator, config, standin = build(job, tmpdir)
+    if job.get("per_handler_rng"):
+        for i, h in enumerate(mediator._activator.get_event_handlers()):
+            h.__dict__.setdefault("_verif_idx", i)
     trace, go = instrument(mediator, job, config, standin)
+    if shim is not None:
+        shim.mediator = mediator
+        mediator._verif_shim = shim
+        mediator._verif_hid = {id(h): i for i, h in enumerate(mediator._activator.get_event_handlers())}
     go()
     try:
-        if trace["end"] == "EndOfRun":
+        if trace["end"] == "EndOfRun" or job.get("mp"):
             mediator.post_run()
     except Exception as e:
         trace["post_run_exception"] = repr(e)
+    if job.get("mp"):
+        import multiprocessing, time as _t
+        _t.sleep(0.05)
+        trace["children_alive_after_post_run"] = len(multiprocessing.active_children())
+        trace["schedule"] = shim.log[:2000]
+        trace["n_waits"] = len(shim.log)
+        from collections import Counter
+        trace["wait_states"] = dict(Counter(stn for w in shim.log for _, stn in w))
     trace["rng_after"] = random.random()
     import shutil
     shutil.rmtree(tmpdir, ignore_errors=True)
@@ -200,6 +305,8 @@ def instrument(mediator, job, config, standin):
                      "handler_bases": [c.__name__ for c in type(t.get_event_handlers()[0]).__mro__],
                      "internal_state_label": getattr(t, "_internal_state_label", None)} for t in taggers],
         "handlers": [(tag_of[id(h)], type(h).__name__) for h in handlers],
+        "handler_nargs": [(h.number_send_event_time_arguments, h.number_send_out_state_arguments) for h in handlers],
+        "number_cores": getattr(mediator, "_number_cores", None),
         "dimension": setting.dimension,
         "system_lengths": system_lengths(),
         "n_roots": setting.number_of_root_nodes, "n_per_root": setting.number_of_nodes_per_root_node,
@@ -233,6 +340,9 @@ def instrument(mediator, job, config, standin):
         cur.update({"active": flat_units(r), "active_roots": [tuple(c.value.identifier) for c in r],
                     "created": [], "times": {}, "trashed": [], "args": {}})
         cur["_active_obj"] = r
+        sh_ = getattr(getattr(mediator, "_verif_shim", None), "log", None)
+        if sh_ is not None:
+            cur["_wait_mark"] = len(sh_)
         return r
     install(sh, "extract_active_global_state", extract_active)
 
@@ -303,6 +413,13 @@ def instrument(mediator, job, config, standin):
         if depth[0] == 0:
             phase[0] = "committed"
             cur["post"] = snapshot()
+            if hasattr(mediator, "_event_handlers_state"):
+                # multi-process mediator: stage of every handler and the stored pre-computed out-states at commit time
+                cur["mp_states"] = {hid[id(mediator._event_handlers[p])]: st.name for p, st in mediator._event_handlers_state.items()}
+                cur["mp_out_states"] = sorted(hid[id(h)] for h in mediator._out_states)
+                sh_ = getattr(getattr(mediator, "_verif_shim", None), "log", None)
+                if sh_ is not None:
+                    cur["mp_waits"] = sh_[cur.get("_wait_mark", 0):]
             leg = {k: v for k, v in cur.items() if not k.startswith("_")}
             leg["i"] = len(trace["legs"])
             trace["legs"].append(leg)
